@@ -142,24 +142,41 @@ def _install_angular():
     caches = {"lebedev": ang.LEBEDEV_CACHE, "spherical": ang.SPHERICAL_CACHE, "maxdet": ang.MAX_DET_CACHE,
               "ahrens_beylkin": ang.AHRENS_BEYLKIN_CACHE}
 
+    seen = {}     # (m, d) -> [count, fingerprint of the verified cache entry]
+
     @functools.wraps(orig)
     def init(self, *a, **kw):
         orig(self, *a, **kw)
         try:
             m, d = self.method, int(self.degree)
+            ent = caches[m].get(d)
+            st = seen.setdefault((m, d), [0, None])
+            st[0] += 1
+            fp = (_h(ent[0]), _h(ent[1])) if ent is not None else None
+            pa = bool(ent is not None and np.shares_memory(self.points, ent[0]))
+            wa = bool(ent is not None and np.shares_memory(self.weights, ent[1]))
+            full = st[0] == 1 or st[0] % 16 == 0 or fp != st[1] or pa or wa
+            if not full:
+                # the cached arrays are bit-identical to the ones verified before and nothing is shared:
+                # compare the instance with the cache entry only (cheap equality), not with the file again
+                rawp, raww = ent
+                okp = np.array_equal(self.points, rawp)
+                okw = np.array_equal(self.weights, raww * 4 * np.pi if m in ("lebedev", "spherical") else raww)
+                if okp and okw:
+                    _COUNTS["angular.fast"] = _COUNTS.get("angular.fast", 0) + 1
+                    return
             p, w = _shipped(m, d, int(self.size))
+
             def ok(x, y):
                 if x.shape != y.shape:
                     return "dirty"
                 return "ok" if (np.array_equal(x, y) or np.allclose(x, y, rtol=1e-12, atol=1e-13)) else "dirty"
-            ent = caches[m].get(d)
-            pa = wa = False
             clean = True
             if ent is not None:
-                pa = bool(np.shares_memory(self.points, ent[0]))
-                wa = bool(np.shares_memory(self.weights, ent[1]))
                 rw = w / (4 * np.pi) if m in ("lebedev", "spherical") else w
                 clean = ok(np.asarray(ent[0], dtype=float), p) == "ok" and ok(np.asarray(ent[1], dtype=float), rw) == "ok"
+                if clean:
+                    st[1] = fp
             _emit({"ev": "New", "m": m, "d": d, "p": ok(np.asarray(self.points, dtype=float), p),
                    "w": ok(np.asarray(self.weights, dtype=float), w), "pa": pa, "wa": wa, "clean": bool(clean), "exc": ""})
         except Exception as ex2:
